@@ -53,8 +53,11 @@ def gfa1OfEdge (e : Edge) (n1 n2 : Nat) : Option (AlnT × Link × Nat) :=
         some (t, ⟨e.s1, e.o1, e.s2, e.o2, .cigar e.aln⟩, pos)
       | .ok false =>
         let pos := if pb1.isFirst then (if pb2.isFirst && pe2.isLast then e.b1 else e.b2) else e.b1
-        some (t, ⟨e.s2, e.o2, e.s1, e.o1, .cigar e.aln.compl⟩, pos)
+        some (t, ⟨e.s2, e.o2, e.s1, e.o1, .cigar e.aln.swapRoles⟩, pos)
       | .error _ => none
   | _, _ => none
+
+/-- the same E line written with its two sides exchanged -/
+def swapEdge (e : Edge) : Edge := ⟨e.s2, e.o2, e.s1, e.o1, e.b2, e.e2, e.b1, e.e1, e.aln.swapRoles⟩
 
 end Gfa.Conv
